@@ -66,6 +66,14 @@ VerdictBC(p, e, s) ==
          ELSE IF e.index1 # e.setindex THEN V("tx-setindex", e.setindex, e.index1)
          ELSE IF ~e.samehashobj THEN V("tx-hash-identity", "same", "different")
          ELSE IF e.frombytes_hash # e.fresh THEN V("tx-from-bytes-hash", Take(e.fresh, 4), Take(e.frombytes_hash, 4))
+         ELSE IF "frombytes_index" \in DOMAIN e /\ (e.frombytes_index # -1 \/ e.fromreader_index # -1) THEN V("tx-index-unknown", -1, <<e.frombytes_index, e.fromreader_index>>)
+         ELSE OK
+    [] e.op = "TwoBlocks" ->
+         \* each block's Bytes() is the serialisation of ITS message, before and after another block was serialised
+         IF e.a1 # e.sera THEN V("serialized-bytes", Len(e.sera), Len(e.a1))
+         ELSE IF e.b1 # e.serb THEN V("serialized-bytes", Len(e.serb), Len(e.b1))
+         ELSE IF e.a2 # e.sera THEN V("serialized-bytes-changed-by-another-block", Take(e.sera, 8), Take(e.a2, 8))
+         ELSE IF ~e.reparse THEN V("reparse-hash", TRUE, FALSE)
          ELSE OK
     [] OTHER -> V("unknown-op", e.op, e.op)
 
